@@ -159,20 +159,27 @@ func CamelCase(name string) string {
 	return sb.String()
 }
 
-// SnakeCase is the oracle's own snake_case for the admitted names.
+// SnakeCase is the oracle's own snake_case: an underscore goes before an
+// upper-case letter that follows a lower-case letter or digit, and before the
+// last letter of an upper-case run that is followed by a lower-case letter
+// (acronym boundary); lower_snake names are returned unchanged.
 func SnakeCase(name string) string {
 	if strings.Contains(name, "_") || (name[0] >= 'a' && name[0] <= 'z') {
 		return name
 	}
+	isUp := func(b byte) bool { return b >= 'A' && b <= 'Z' }
+	isLow := func(b byte) bool { return b >= 'a' && b <= 'z' }
+	isDig := func(b byte) bool { return b >= '0' && b <= '9' }
 	var sb strings.Builder
-	for i, r := range name {
-		if r >= 'A' && r <= 'Z' {
-			if i > 0 {
+	for i := 0; i < len(name); i++ {
+		c := name[i]
+		if isUp(c) {
+			if i > 0 && (isLow(name[i-1]) || isDig(name[i-1]) || (isUp(name[i-1]) && i+1 < len(name) && isLow(name[i+1]))) {
 				sb.WriteByte('_')
 			}
-			r = r - 'A' + 'a'
+			c = c - 'A' + 'a'
 		}
-		sb.WriteRune(r)
+		sb.WriteByte(c)
 	}
 	return sb.String()
 }
